@@ -1,0 +1,47 @@
+// SPDX-FileCopyrightText: 2022-present Intel Corporation
+//
+// SPDX-License-Identifier: Apache-2.0
+
+//go:build verif
+
+// Contracts for the deductive verifier in /verif (govc). Comment-only: this file contains no code
+// and is excluded from every build that does not set the "verif" tag.
+
+package gnmi
+
+//@ import configapi "github.com/onosproject/onos-api/go/onos/config/v2"
+//@ import errors "github.com/onosproject/onos-lib-go/pkg/errors"
+//@ import codes "google.golang.org/grpc/codes"
+//@ import gnmi "github.com/openconfig/gnmi/proto/gnmi"
+
+// gRPC status code that errors.Status gives the error built for a recorded failure class
+//@ spec codeOfFailure(t int) int = ite(t == configapi.Failure_UNKNOWN, codes.Unknown, ite(t == configapi.Failure_CANCELED, codes.Canceled, ite(t == configapi.Failure_NOT_FOUND, codes.NotFound, ite(t == configapi.Failure_ALREADY_EXISTS, codes.AlreadyExists, ite(t == configapi.Failure_UNAUTHORIZED, codes.Unauthenticated, ite(t == configapi.Failure_FORBIDDEN, codes.PermissionDenied, ite(t == configapi.Failure_CONFLICT, codes.FailedPrecondition, ite(t == configapi.Failure_INVALID, codes.InvalidArgument, ite(t == configapi.Failure_UNAVAILABLE, codes.Unavailable, ite(t == configapi.Failure_NOT_SUPPORTED, codes.Unimplemented, ite(t == configapi.Failure_TIMEOUT, codes.DeadlineExceeded, ite(t == configapi.Failure_INTERNAL, codes.Internal, codes.Unknown))))))))))))
+
+//@ spec evState(e configapi.TransactionEvent) int = e.Transaction.Status.State
+//@ spec evSync(e configapi.TransactionEvent) bool = e.Transaction.TransactionStrategy.Synchronicity == configapi.TransactionStrategy_SYNCHRONOUS
+//@ spec evAsync(e configapi.TransactionEvent) bool = e.Transaction.TransactionStrategy.Synchronicity == configapi.TransactionStrategy_ASYNCHRONOUS
+// the transaction has reached the stage the caller asked to wait for
+//@ spec evReached(e configapi.TransactionEvent) bool = (evAsync(e) && (evState(e) == configapi.TransactionStatus_COMMITTED || evState(e) == configapi.TransactionStatus_APPLIED)) || (evSync(e) && evState(e) == configapi.TransactionStatus_APPLIED)
+
+//@ spec noStoreEffect() bool = cfgValueWrites == old(cfgValueWrites) && cfgStatusWrites == old(cfgStatusWrites) && proposalCreates == old(proposalCreates) && deviceSetCalls == old(deviceSetCalls)
+
+//@ func (*Server).Set
+//@   props C08, C13, C14
+//@   requires s != nil && req != nil
+//@   probe evState: evState(transactionEvent)
+//@   probe evSync: ite(evSync(transactionEvent), 1, 0)
+//@   probe evAsync: ite(evAsync(transactionEvent), 1, 0)
+//@   probe evFailureType: ite(transactionEvent.Transaction.Status.Failure == nil, 0 - 1, transactionEvent.Transaction.Status.Failure.Type)
+//@   ensures {C08} success-only-if-reached: err == nil ==> result0 != nil && evReached(transactionEvent) && txnCreates == old(txnCreates) + 1
+//@   ensures {C08} failure-class: evState(transactionEvent) == configapi.TransactionStatus_FAILED && !evReached(transactionEvent) ==> err != nil && result0 == nil && (transactionEvent.Transaction.Status.Failure != nil ==> grpcCodeOf(err) == codeOfFailure(transactionEvent.Transaction.Status.Failure.Type)) && (transactionEvent.Transaction.Status.Failure == nil ==> grpcCodeOf(err) == codes.Unknown)
+//@   loop 5 backedge {C08} no-wait-on-finished: !evReached(transactionEvent) && evState(transactionEvent) != configapi.TransactionStatus_FAILED
+//@   ensures {C13} at-most-one-transaction: txnCreates <= old(txnCreates) + 1 && noStoreEffect()
+//@   ensures {C13} empty-request-refused: old(len(req.Update) + len(req.Replace) + len(req.Delete)) < 1 ==> err != nil && txnCreates == old(txnCreates)
+//@   ensures {C13} create-only-after-all-checks: txnCreates > old(txnCreates) ==> checkFailures == old(checkFailures)
+//@   loop 1 invariant txnCreates == old(txnCreates) && checkFailures == old(checkFailures) && noStoreEffect()
+//@   loop 2 invariant txnCreates == old(txnCreates) && checkFailures == old(checkFailures) && noStoreEffect()
+//@   loop 3 invariant txnCreates == old(txnCreates) && checkFailures == old(checkFailures) && noStoreEffect()
+//@   loop 4 invariant txnCreates == old(txnCreates) && checkFailures == old(checkFailures) && noStoreEffect()
+//@   loop 5 invariant txnCreates == old(txnCreates) + 1 && checkFailures == old(checkFailures) && noStoreEffect()
+//@   loop 6 invariant txnCreates == old(txnCreates) + 1 && checkFailures == old(checkFailures) && noStoreEffect()
+//@   loop 7 invariant txnCreates == old(txnCreates) + 1 && checkFailures == old(checkFailures) && noStoreEffect()
